@@ -369,6 +369,9 @@ func writeEvidence(prop, tier string, seed int, res []*fnResult, all []*Oblig, c
 		}
 		e := map[string]interface{}{"function": r.Key, "obligations": len(r.Obs), "status": st}
 		if c := g.ct.C[r.Key]; c != nil {
+			for _, gs := range c.GhostSets {
+				trusted[fmt.Sprintf("ghost assignment in %s (model state set by annotation, not derived from the code): %s = %s", r.Key, gs[0].Src, gs[1].Src)] = true
+			}
 			e["contract"] = fmt.Sprintf("%s:%d", c.File, c.Line)
 			e["clauses"] = len(c.Requires) + len(c.Ensures) + len(c.Loops)
 		}
